@@ -149,6 +149,8 @@ func body(services_ []string, fine bool) func() {
 func init() {
 	reg.Register(&reg.Scenario{Property: "C19", Name: "two-same-endpoint", Body: body([]string{"Probe", "Probe"}, false), Quick: 1, Thorough: 2,
 		Doc: "two goroutines request a proxy to the same not-yet-connected service and call it", MustFlag: []string{"dialled-twice:tcp://b"}})
+	reg.Register(&reg.Scenario{Property: "C19", Name: "two-shared-connection", Body: body([]string{"ServiceDirectory", "ServiceDirectory"}, false), Quick: 2, Thorough: 3,
+		Doc: "two goroutines request a proxy over the session's existing directory connection and call it (shared client)"})
 	reg.Register(&reg.Scenario{Property: "C19", Name: "three-mixed", Body: body([]string{"Probe", "ServiceDirectory", "Other"}, false), Quick: 1, Thorough: 2,
 		Doc: "three goroutines: a new endpoint, the directory's existing connection, another new endpoint"})
 	reg.Register(&reg.Scenario{Property: "C19", Name: "two-same-endpoint-statement-level", Body: body([]string{"Probe", "Probe"}, true), Quick: 1, Thorough: 2,
